@@ -25,8 +25,10 @@ package main
 // needed its entries fails as it did when no literal was found.
 
 import (
+	"fmt"
 	"go/token"
 	"go/types"
+	"math/big"
 
 	"golang.org/x/tools/go/ssa"
 )
@@ -396,4 +398,230 @@ func globalArrayTable(p *Prog, g *ssa.Global) *c26Table {
 		return nil
 	}
 	return &c26Table{root: g, consts: cs, pos: g.Pos()}
+}
+
+// ---------------------------------------------------------------------------
+// C26.component, generalisation of "the conversion of a capture to a number is
+// spelled `tmp, _ := strconv.ParseInt(v, 10, N); x = int(tmp)` inside the case".
+//
+// The rule used to follow a time.Date / time.Unix parameter through the phis of
+// Path.Decode to an Extract #0 of a strconv.ParseInt call sitting IN the block
+// of `case X` and fed by the loop's value, by SSA identity. Extracting the
+// conversion into a helper (decodeInt(v), called once per case) puts the
+// ParseInt call in another function, once for all seven cases. The MEANING is:
+//
+//	on the path of case X, the sink receives  number(v) * scale
+//
+// where number() is a decimal parse of the captured text that cannot lose
+// information for the texts the capture group of X accepts. c26Leaves resolves
+// the sources of a sink with the context-sensitive values of prop_gen_c42.go
+// (rvalG4 / stepG4: result of a NEW helper -> the value it returns, interpreted
+// for that call site; parameter -> the argument of that site; single-store
+// locals), so the same helper called from seven cases yields seven distinct
+// sources, each entering Decode at its own call site; the case is the one whose
+// body dominates that site.
+//
+// "cannot lose information" used to be implicit in the frozen spelling (and the
+// seeded defect that folds the 64-bit parse of %s into a 32-bit helper was only
+// reported because the helper was opaque). It is now checked: every container
+// the number passes on its way to the sink (the ParseInt/ParseUint bitSize,
+// every integer conversion, every product by a constant) must be able to hold
+// the largest text of the group, 10^W-1 for a W-digit group, times the scale
+// applied inside that container. `int`/`uint` count as 32 bits (the server is
+// built for 32-bit ARM), bitSize 0 likewise.
+
+type c26Hold struct {
+	outer int64 // product of the constant multipliers applied OUTSIDE this container
+	bits  int   // magnitudes below 2^bits are representable
+	what  string
+}
+
+type c26Leaf struct {
+	x     rvalG4
+	scale int64
+	holds []c26Hold
+}
+
+// c26ValueBits: non-negative magnitudes below 2^n fit in the type (0: not an integer type).
+func c26ValueBits(t types.Type) int {
+	b, ok := t.Underlying().(*types.Basic)
+	if !ok {
+		return 0
+	}
+	switch b.Kind() {
+	case types.Int8:
+		return 7
+	case types.Int16:
+		return 15
+	case types.Int32, types.Int: // int is 32 bits wide on linux/arm
+		return 31
+	case types.Int64:
+		return 63
+	case types.Uint8:
+		return 8
+	case types.Uint16:
+		return 16
+	case types.Uint32, types.Uint, types.Uintptr:
+		return 32
+	case types.Uint64:
+		return 64
+	}
+	return 0
+}
+
+// c26Leaves: the values a sink argument may stand for, through conversions,
+// products by a positive constant, phis, single-store locals and new helpers
+// (per call site). Each leaf carries the scale and the containers passed.
+func c26Leaves(v ssa.Value) []c26Leaf {
+	var out []c26Leaf
+	type key struct {
+		v     ssa.Value
+		env   string
+		scale int64
+	}
+	seen := map[key]bool{}
+	var walk func(x rvalG4, scale int64, holds []c26Hold, d int)
+	walk = func(x rvalG4, scale int64, holds []c26Hold, d int) {
+		hold := func(bits int, what string) {
+			holds = append(holds[:len(holds):len(holds)], c26Hold{scale, bits, what})
+		}
+	peel:
+		for n := 0; n < 64; n++ {
+			switch y := x.v.(type) {
+			case *ssa.Convert:
+				hold(c26ValueBits(y.Type()), "conversion to "+y.Type().String())
+				x.v = y.X
+				continue peel
+			case *ssa.ChangeType: // same underlying type: same range
+				x.v = y.X
+				continue peel
+			case *ssa.BinOp:
+				if y.Op == token.MUL {
+					for _, ops := range [][2]ssa.Value{{y.X, y.Y}, {y.Y, y.X}} {
+						if k, ok := constBig(ops[1]); ok && k.IsInt64() && k.Sign() > 0 && k.Int64() <= 1<<40 && scale <= 1<<20 {
+							hold(c26ValueBits(y.Type()), "product of type "+y.Type().String())
+							scale *= k.Int64()
+							x.v = ops[0]
+							continue peel
+						}
+					}
+				}
+			}
+			nx, ok := stepG4(x)
+			if !ok {
+				break
+			}
+			x = nx
+		}
+		k := key{x.v, envKeyG4(x.env), scale}
+		if seen[k] || d > 24 {
+			return
+		}
+		seen[k] = true
+		switch y := x.v.(type) {
+		case *ssa.Phi:
+			for _, e := range y.Edges {
+				walk(rvalG4{e, x.env}, scale, holds, d+1)
+			}
+			return
+		case *ssa.Call: // a new helper with several returns (stepG4 resolves the single-return one)
+			if h := newHelperCallee(y); h != nil && h.Signature.Results().Len() == 1 && x.env.depth() <= 6 {
+				for _, r := range helperReturnsG4(h) {
+					walk(rvalG4{retVal(r, 0), &envG4{h, y, x.env}}, scale, holds, d+1)
+				}
+				return
+			}
+		case *ssa.Extract:
+			if c, ok := y.Tuple.(*ssa.Call); ok {
+				if h := newHelperCallee(c); h != nil && x.env.depth() <= 6 {
+					for _, r := range helperReturnsG4(h) {
+						if y.Index < len(r.Results) {
+							walk(rvalG4{retVal(r, y.Index), &envG4{h, c, x.env}}, scale, holds, d+1)
+						}
+					}
+					return
+				}
+			}
+		}
+		out = append(out, c26Leaf{x, scale, holds})
+	}
+	walk(rvalG4{v, nil}, 1, nil, 0)
+	return out
+}
+
+// c26EntryBlock: the block of fn in which the value is computed - its own block,
+// or, for a value of a new helper, the block of the call site of fn the
+// surrounding helpers are interpreted for.
+func c26EntryBlock(fn *ssa.Function, x rvalG4, ins ssa.Instruction) *ssa.BasicBlock {
+	for e := x.env; e != nil; e = e.up {
+		ins = e.site
+	}
+	if ins == nil || ins.Parent() != fn {
+		return nil
+	}
+	return ins.Block()
+}
+
+// c26Number recognises a decimal parse of a string: strconv.ParseInt(s, 10, N)#0,
+// strconv.ParseUint(s, 10, N)#0, strconv.Atoi(s)#0. It returns the parsed string
+// (in the leaf's context), the call, and the container the parser imposes.
+func c26Number(x rvalG4) (arg rvalG4, call *ssa.Call, h c26Hold, ok bool) {
+	ex, isEx := x.v.(*ssa.Extract)
+	if !isEx || ex.Index != 0 {
+		return
+	}
+	cl, isC := ex.Tuple.(*ssa.Call)
+	if !isC || cl.Call.IsInvoke() {
+		return
+	}
+	name := calleeName(&cl.Call)
+	switch name {
+	case "strconv.Atoi":
+		if len(cl.Call.Args) != 1 {
+			return
+		}
+		return rvalG4{cl.Call.Args[0], x.env}, cl, c26Hold{bits: 31, what: "strconv.Atoi (int)"}, true
+	case "strconv.ParseInt", "strconv.ParseUint":
+		if len(cl.Call.Args) != 3 {
+			return
+		}
+		base, okB := constBig(peelG4(rvalG4{cl.Call.Args[1], x.env}).v)
+		size, okS := constBig(peelG4(rvalG4{cl.Call.Args[2], x.env}).v)
+		if !okB || !okS || base.Int64() != 10 || !size.IsInt64() {
+			return
+		}
+		bits := int(size.Int64())
+		if bits == 0 {
+			bits = 32 // the size of int, 32 on linux/arm
+		}
+		if bits < 0 || bits > 64 {
+			bits = 64
+		}
+		if name == "strconv.ParseInt" {
+			bits--
+		}
+		return rvalG4{cl.Call.Args[0], x.env}, cl, c26Hold{bits: bits, what: fmt.Sprintf("%s bitSize %d", name, size.Int64())}, true
+	}
+	return
+}
+
+// c26Fits: every container holds (10^width - 1) * (scale applied inside it).
+func c26Fits(width int64, total int64, holds []c26Hold) string {
+	if width <= 0 || width > 30 {
+		return fmt.Sprintf("unknown digit count %d; ", width)
+	}
+	max := new(big.Int).Exp(big.NewInt(10), big.NewInt(width), nil)
+	max.Sub(max, big.NewInt(1))
+	bad := ""
+	for _, h := range holds {
+		if h.outer <= 0 || total%h.outer != 0 {
+			bad += "scale of " + h.what + " not resolved; "
+			continue
+		}
+		v := new(big.Int).Mul(max, big.NewInt(total/h.outer))
+		if v.BitLen() > h.bits {
+			bad += fmt.Sprintf("%s cannot hold %s (a %d-digit field); ", h.what, v.String(), width)
+		}
+	}
+	return bad
 }
